@@ -39,7 +39,8 @@ static void gen_wire(gbody *b) {
         hb_puts(&b->wire, nl);
     }
     hb_printf(&b->wire, "--%s--%s", b->boundary, nl);
-    if (b->epi) hb_puts(&b->wire, "epi");
+    /* epilogue: text without a line end, one complete line, text after an empty line */
+    if (b->epi == 1) hb_puts(&b->wire, "epi"); else if (b->epi == 2) { hb_puts(&b->wire, "epi"); hb_puts(&b->wire, nl); } else if (b->epi == 3) { hb_puts(&b->wire, "one"); hb_puts(&b->wire, nl); hb_puts(&b->wire, nl); hb_puts(&b->wire, "two"); }
 }
 /* content is well-formed iff no delimiter (LF "--" boundary) appears in LF+content, and (LF mode) it does not end in CR */
 static int content_ok(const gbody *b, const uint8_t *c, size_t n) {
@@ -115,7 +116,8 @@ static void check_truth(const gbody *b, const presult *r, const char *how) {
     int gi = 0, fi = 0;
     for (int k = 0; k < r->nparts; k++) {
         if (r->type[k] == MULTIPART_PART_PREAMBLE) { if (!b->pre) viol("phantom_preamble", "%s: a preamble part is reported, none was sent", how); continue; }
-        if (r->type[k] == MULTIPART_PART_EPILOGUE) { if (!b->epi) viol("phantom_epilogue", "%s: an epilogue part is reported, none was sent", how); else if (!same_buf(&r->value[k], "epi", 3, 1)) viol("epilogue_value", "%s: epilogue text differs", how); continue; }
+        if (r->type[k] == MULTIPART_PART_EPILOGUE) { if (!b->epi) viol("phantom_epilogue", "%s: an epilogue part is reported, none was sent", how); else { char we[24]; const char *nl = b->lf ? "\n" : "\r\n"; snprintf(we, sizeof we, b->epi == 1 ? "epi" : b->epi == 2 ? "epi%s" : "one%s%stwo", nl, nl);
+            if (!same_buf(&r->value[k], we, strlen(we), 1)) { static hx_buf e; hb_reset(&e); hb_esc(&e, r->value[k].p, r->value[k].n); hb_term(&e); viol("epilogue_value", "%s: epilogue text reported as \"%s\"", how, (char *) e.p); } } continue; }
         if (gi >= b->nparts) { viol("extra_part", "%s: more parts reported (%d, type %d) than the %d encoded", how, k, r->type[k], b->nparts); return; }
         const gpart *p = &b->parts[gi++];
         int wtype = p->has_file ? MULTIPART_PART_FILE : MULTIPART_PART_TEXT;
@@ -132,6 +134,13 @@ static void check_truth(const gbody *b, const presult *r, const char *how) {
     if (gi != b->nparts) viol("missing_part", "%s: %d parts reported, %d encoded", how, gi, b->nparts);
 }
 static int same_result(const presult *a, const presult *b) { return res_hash(a) == res_hash(b) && a->flags == b->flags && a->nparts == b->nparts; }
+/* the same, not counting EPILOGUE pseudo-parts and the has-epilogue indicator (to tell a difference that only concerns the text after the last boundary) */
+static uint64_t res_hash_noepi(const presult *r) {
+    uint64_t h = (r->flags & ~(uint64_t) HTP_MULTIPART_HAS_EPILOGUE) * 1099511628211ULL;
+    for (int k = 0; k < r->nparts; k++) { if (r->type[k] == MULTIPART_PART_EPILOGUE) continue; h = hx_fnv(r->name[k].p, r->name[k].n, h + (uint64_t) r->type[k]); h = hx_fnv(r->value[k].p, r->value[k].n, h); h = hx_fnv(r->ct[k].p, r->ct[k].n, h); h = hx_fnv(r->fname[k].p, r->fname[k].n, h); h += (uint64_t) r->flen[k] * 31; }
+    for (int i = 0; i < r->nfiles; i++) h = hx_fnv(r->files[i].p, r->files[i].n, h + 5);
+    return h;
+}
 
 static int TRIPLE_MAX, PAIRS, PAIRWIN;
 static void explore_body(gbody *b) {
@@ -141,7 +150,7 @@ static void explore_body(gbody *b) {
     check_truth(b, &R0, "whole delivery");
     cx_set_add(&outs, res_hash(&R0));
     int n = (int) b->wire.n; int reported = 0;
-#define TRY(how) do { if (!same_result(&R0, &R1)) { if (reported++ < 2) { viol("chunking_diff", "%s: result (flags %llx, %d parts) differs from whole delivery (flags %llx, %d parts)", how, (unsigned long long) R1.flags, R1.nparts, (unsigned long long) R0.flags, R0.nparts); check_truth(b, &R1, how); } } } while (0)
+#define TRY(how) do { if (!same_result(&R0, &R1)) { if (reported++ < 2) { viol(res_hash_noepi(&R0) == res_hash_noepi(&R1) ? "chunking_diff_epilogue_only" : "chunking_diff", "%s: result (flags %llx, %d parts) differs from whole delivery (flags %llx, %d parts)", how, (unsigned long long) R1.flags, R1.nparts, (unsigned long long) R0.flags, R0.nparts); check_truth(b, &R1, how); } } } while (0)
     for (int a = 1; a < n; a++) {
         curcuts[0] = a; curncuts = 1; run_parser(b, curcuts, 1, 0, &R1); TRY("one cut");
         if (PAIRS) for (int c = a + 1; c < n && (PAIRWIN == 0 || c - a <= PAIRWIN); c++) {
@@ -231,12 +240,12 @@ static int worker(int argc, char **argv) {
     static const char *const FNAMES[] = { "", "f.txt", "C:\\d\\" };
     static gbody b;
     /* zero parts */
-    for (int bi = 0; bi < 3; bi++) for (int pe = 0; pe < 4; pe++) for (int lf = 0; lf < 2; lf++) {
+    for (int bi = 0; bi < 3; bi++) for (int pe = 0; pe < 8; pe++) for (int lf = 0; lf < 2; lf++) {
         memset(&b, 0, offsetof(gbody, wire)); strcpy(b.boundary, BND[bi]); b.nparts = 0; b.pre = pe & 1; b.epi = pe >> 1; b.lf = lf;
         if (!mine()) continue; gen_wire(&b); describe_body(&b); explore_body(&b);
     }
     /* one part: full content set */
-    for (int bi = 0; bi < 3; bi++) for (int ci = 0; ci < ncont; ci++) for (int ni = 0; ni < 5; ni++) for (int fl = 0; fl < 3; fl++) for (int ct = 0; ct < 2; ct++) for (int pe = 0; pe < 4; pe++) for (int lf = 0; lf < 2; lf++) {
+    for (int bi = 0; bi < 3; bi++) for (int ci = 0; ci < ncont; ci++) for (int ni = 0; ni < 5; ni++) for (int fl = 0; fl < 3; fl++) for (int ct = 0; ct < 2; ct++) for (int pe = 0; pe < 8; pe++) for (int lf = 0; lf < 2; lf++) {
         memset(&b, 0, offsetof(gbody, wire)); strcpy(b.boundary, BND[bi]); b.nparts = 1; b.pre = pe & 1; b.epi = pe >> 1; b.lf = lf;
         gpart *p = &b.parts[0]; strcpy(p->name, NAMES[ni]); p->has_file = fl > 0; strcpy(p->fname, FNAMES[fl]); p->has_ct = ct; memcpy(p->content, CONT[ci], CLEN[ci]); p->clen = CLEN[ci];
         if (!content_ok(&b, p->content, p->clen)) continue;
